@@ -132,6 +132,36 @@ def judge(ctx, rows):
         ctx.cov["traces_validated_against_impl"] += 1
 
 
+def e2e_cancel_app(ctx):
+    """SIGINT while a probe of the real socks / elastic / docker command is in flight against a silent peer: the process
+    must exit promptly (the request timeout is 30 s) with only complete records printed."""
+    sx = os.path.join(ctx.work, "sx")
+    if not os.path.exists(sx):
+        rc, out = verif.sh(["go", "build", "-o", sx, "."], env=verif.GOENV, cwd=verif.REPO, timeout=900)
+        if rc != 0:
+            ctx.broken.append(("correspondence: the sx binary does not build", out[-1500:]))
+            return
+    ok, _ = ctx.harness_run("c08", ["-e2ecancel", sx, "-out", "e2ecancel.jsonl"], timeout=300)
+    for o in (ctx.read_jsonl(os.path.join(ctx.work, "e2ecancel.jsonl")) if ok else []):
+        ctx.count("e2e-cancel", ("e2e-cancel", o["cmd"], o["stall"]), nontrivial=o["request_seen"],
+                  sample={"cmd": o["cmd"], "stalled_request": o["stall"], "exit_ms_after_sigint": o["exit_ms_after_sigint"]})
+        why = None
+        if not o["request_seen"]:
+            ctx.skipped.append("e2e cancel %s/%s: the probe never reached the peer (%s)" % (o["cmd"], o["stall"], o["stderr"][:100]))
+            continue
+        if not o["exited"]:
+            why = "the process is still running 8 s after SIGINT"
+        elif o["exit_ms_after_sigint"] > 3000:
+            why = "the process exits only %d ms after SIGINT" % o["exit_ms_after_sigint"]
+        elif o["bad_lines"]:
+            why = "%d printed lines are not complete records" % o["bad_lines"]
+        if why:
+            why = "sx %s -t 30s against a peer that never answers the %s request, SIGINT while the request is in flight: %s" % (
+                o["cmd"], o["stall"], why)
+            path = ctx.write_replay("e2e-cancel-%s-%s" % (o["cmd"], o["stall"]), {"property": "C12", "what": why, "input": {"args": o["args"], "stall": o["stall"]}, "observed": o})
+            ctx.findings.append({"key": "e2e-cancel:%s:%s" % (o["cmd"], o["stall"]), "what": why, "replay": path})
+
+
 def e2e_chunk_late_reply(ctx, runs, par):
     """The real binary: a chunked SYN scan (450 single-port ranges = 3 engines one after the other) with a reply to a
     probe of the first chunk arriving after that chunk's engine has ended. The process must not crash."""
@@ -192,6 +222,7 @@ def run(ctx):
                 rows += batch(ctx, ctx.seed + int(gmp), 400, 400, tag="_g" + gmp, env={"GOMAXPROCS": gmp})
     judge(ctx, rows)
     e2e_chunk_late_reply(ctx, 3 if quick else 12, 6 if quick else 12)
+    e2e_cancel_app(ctx)
     if not quick:
         ctx.harness_race_run("c07", ["-out", "race7.jsonl", "-seed", ctx.seed + 9, "-n", 0, "-cancel", 400], "in the packet engine under cancellation")
         ctx.harness_race_run("c08", ["-out", "race8.jsonl", "-seed", ctx.seed + 9, "-n", 0, "-cancel", 400], "in the application engine under cancellation")
